@@ -95,7 +95,9 @@ class BaseSQLURLTable(BaseURLTable):
             query = insert(QueuedURL).prefix_with('OR IGNORE').values(bind_values)
 
             all_row_values = []
-            column_names = set()
+            # parent_url and root_url are bound parameters of the statement:
+            # they must be present even if no URL in the batch supplies them.
+            column_names = {'parent_url', 'root_url'}
 
             for url, url_properties, url_data in new_urls:
                 row_values = {
